@@ -438,6 +438,49 @@ class RangeChain(Comp):
         return L
 
 
+class StringChain(Comp):
+    """chains of string typedefs whose levels have a length statement, pattern statements, both or neither: compiled length
+    parts, the compiled patterns of the leaf type IN ORDER and the acceptance of probe lengths vs
+    RestrictStr.compile_str_chain (length and patterns inherited independently)"""
+    name = "strchain"
+    driver = "t_restrict"
+    slice = "restrict"
+
+    def gen(self, rng, tier, scale=1.0):
+        L = []
+        ty = Ty("string")
+        fixed = [[("1..3 | 6..8 | 12", 1), (None, 1)], [("1..3 | 6..8 | 12", 1), (None, 1), ("6..8", 0)],
+                 [("1..3 | 6..8 | 12", 1), ("6..8", 0), (None, 2), (None, 0)], [(None, 0), (None, 0)], [(None, 2), ("2..4", 0)],
+                 [("1..3 | 6..8", 0), (None, 1), ("2..3 | 6..7", 1)], [("1..3 | 6..8", 0), (None, 1), ("2..9", 1)]]
+        for lv in fixed:
+            L.append(self.line(lv, ["0", "1", "2", "3", "4", "5", "6", "7", "8", "9", "11", "12", "13"]))
+        for _ in range(self.n(tier, 300, 20000, scale)):
+            depth = rng.choice([1, 2, 2, 3, 3, 4, 5])
+            base, lv, levels = None, [], []
+            for d in range(depth):
+                shape = rng.choice(["len", "len", "both", "pat"]) if d == 0 else rng.choice(["pat", "pat", "len", "both", "none"])
+                text = None
+                if shape in ("len", "both"):
+                    small = [(0, 14)] if base is None else [(lo, min(hi, 14)) for lo, hi in base if lo <= 14]
+                    parts = pick_parts(rng, ty, inside=small or base)
+                    text = render(rng, ty, parts, [" "], style=0) if rng.random() < 0.9 else mutate_text(rng, ty, parts, base, [" "])
+                    try:
+                        base = resolve(parts, ty, base)
+                        levels.append(base)
+                    except Exception:
+                        pass
+                lv.append((text, rng.choice([1, 1, 2]) if shape in ("pat", "both") else 0))
+            if any(t and ("\\" in t or '"' in t) for t, _ in lv):
+                continue
+            L.append(self.line(lv, probe_values(ty, levels or [[(0, 3)]], rng, limit=18)))
+        return L
+
+    @staticmethod
+    def line(lv, vals):
+        return "strchain\t%d\t%s\t%d%s" % (len(lv), "\t".join("%s\t%d" % ("~" if t is None else hexs(t.encode("latin-1")), np) for t, np in lv),
+                                           len(vals), "".join("\t" + v for v in vals))
+
+
 # ------------------------------------------------------------------------------------------------
 # RFC oracle
 # ------------------------------------------------------------------------------------------------
